@@ -6,6 +6,7 @@ import (
 	"context"
 	"errors"
 	"fmt"
+	"math"
 	"os"
 	"path/filepath"
 	"sync"
@@ -76,7 +77,7 @@ func genCopyCase(t *rapid.T) CopyCase {
 		total += e.DataLen + 32
 		sizes = append(sizes, e.DataLen+32)
 	}
-	bb := []int{-1, 0, 1, 1 << 30}
+	bb := []int{-1, 0, 1, 1 << 30, math.MaxInt32, math.MaxInt}
 	if n > 0 {
 		bb = append(bb, sizes[0]-1, sizes[0], sizes[0]+1, total-1, total, total+1)
 		if n > 2 {
